@@ -13,9 +13,10 @@ Record cparams := mk_cparams {
   cp_newton_tol : Q; cp_lamb_init : Q; cp_lamb_min : Q; cp_lamb_red : Q; cp_lamb_inc : Q; cp_theta_max : Q
 }.
 
-(* answer of step(): chosen iterate id, next lambda, accepted — or an exception (StepSolverError when the
-   deadline passes inside the exact controller's loop; running off the scripted stream never happens in
-   the implementation, it is the model's out-of-fuel) *)
+(* answer of step(): chosen iterate id, next lambda, accepted — or an exception (StepSolverError / EvalError
+   from the step computation; scripted); running off the scripted stream never happens in the implementation,
+   it is the model's out-of-fuel.  When the deadline passes inside the exact controller's loop the trial is
+   abandoned: (unchanged iterate, unchanged lambda, not accepted). *)
 Inductive cres := CAns (id : nat) (lamb : Q) (accepted : bool) | CRaise | CStuck.
 
 Section StepCtl.
@@ -33,7 +34,7 @@ Section StepCtl.
         match stream with
         | [] => CStuck
         | s :: stream' =>
-            if passed k then CRaise
+            if passed k then CAns 0 lamb false          (* abandoned: unchanged iterate (id 0), unchanged lambda *)
             else if qle (ns_res s) (cp_newton_tol prm) then CAns (ns_id s) ((1 # 2) * lamb) true
             else if qlt ((1 # 2) * curr) (ns_res s) then CAns (ns_id s) (2 * lamb) false
             else exact_loop f (S k) (ns_res s) (Some s) stream'
